@@ -17,7 +17,8 @@ import struct
 import nagarun
 import vcheck
 
-FUEL = 400000
+FUEL = 60000          # retried once with BIG_FUEL when either side runs out
+BIG_FUEL = 1500000
 
 # --------------------------------------------------------------------------
 # IR dump helpers
@@ -258,9 +259,9 @@ def classify(ir_res, spv_res, keys):
     return "agree", ""
 
 
-def run_compiled(exe_ir, exe_spv, comp, inputs, ep=None, fuel=FUEL):
-    """comp: nagadrive result with ir+spv.  inputs: list of {"buffers": {...}, "builtins": {...}}.
-    Returns list of (class, detail, ir_res, spv_res) or None when the program cannot be run at all."""
+def build_jobs(comp, inputs, ep=None, fuel=FUEL):
+    """-> (ir_jobs, spv_jobs, keys) or None when the program cannot be run (no compute entry point,
+    entry-point arguments that are not builtins)."""
     if comp is None or "ir" not in comp or "spv" not in comp:
         return None
     ir = comp["ir"]
@@ -289,14 +290,63 @@ def run_compiled(exe_ir, exe_spv, comp, inputs, ep=None, fuel=FUEL):
                 gl[h] = inp["buffers"][key]
         ir_jobs.append({"ir": ir, "ep": epi, "globals": gl, "args": args, "fuel": fuel})
         spv_jobs.append({"words": words, "ep": epname, "buffers": inp["buffers"], "builtins": bi, "fuel": fuel})
-    ir_out = run_model_guarded(exe_ir, ir_jobs)
-    spv_out = run_model_guarded(exe_spv, spv_jobs)
     keys = [(h, key) for h, key, _sp, _t, _a in bg if all(key in i["buffers"] for i in inputs)]
+    return ir_jobs, spv_jobs, keys
+
+
+def run_chunks(exe, jobs, chunk=48, timeout=240):
     out = []
-    for a, b in zip(ir_out, spv_out):
-        c, d = classify(a, b, keys)
-        out.append((c, d, a, b))
+    for i in range(0, len(jobs), chunk):
+        out += run_model_guarded(exe, jobs[i:i + chunk], timeout=timeout)
     return out
+
+
+def run_items(exe_ir, exe_spv, items, fuel=FUEL):
+    """items: list of (comp, inputs, ep).  Both interpreters run over ALL jobs in a few processes (the two
+    tools in parallel).  Returns, per item, None (cannot be run) or a list of (class, detail, ir_res, spv_res)."""
+    from concurrent.futures import ThreadPoolExecutor
+    built = [build_jobs(c, inputs, ep, fuel) for c, inputs, ep in items]
+    ir_all = []
+    spv_all = []
+    for b in built:
+        if b is not None:
+            ir_all += b[0]
+            spv_all += b[1]
+    with ThreadPoolExecutor(2) as ex:
+        fa = ex.submit(run_chunks, exe_ir, ir_all)
+        fb = ex.submit(run_chunks, exe_spv, spv_all)
+        ir_out, spv_out = fa.result(), fb.result()
+    # one retry with more fuel for the jobs that ran out on either side
+    # the IR run finished within the small budget but the SPIR-V run needs more than 25x as much: reported as divergence
+    quick_ir = set(i for i, a in enumerate(ir_out) if a.get("ok"))
+    redo = [i for i, (a, b) in enumerate(zip(ir_out, spv_out)) if a.get("kind") == "outoffuel" or b.get("kind") == "outoffuel"]
+    if redo and fuel < BIG_FUEL:
+        ij = [dict(ir_all[i], fuel=BIG_FUEL) for i in redo]
+        sj = [dict(spv_all[i], fuel=BIG_FUEL) for i in redo]
+        with ThreadPoolExecutor(2) as ex:
+            fa = ex.submit(run_chunks, exe_ir, ij, 8)
+            fb = ex.submit(run_chunks, exe_spv, sj, 8)
+            ra, rb = fa.result(), fb.result()
+        for i, a, b in zip(redo, ra, rb):
+            if i in quick_ir and a.get("ok") and b.get("kind") == "outoffuel":
+                b = {"ok": False, "kind": "fail", "msg": "diverges: not finished after %d instruction steps (the IR run finished within %d statement steps)" % (BIG_FUEL, fuel)}
+            ir_out[i], spv_out[i] = a, b
+    res = []
+    pos = 0
+    for b in built:
+        if b is None:
+            res.append(None)
+            continue
+        n = len(b[0])
+        res.append([classify(a, bb, b[2]) + (a, bb) for a, bb in zip(ir_out[pos:pos + n], spv_out[pos:pos + n])])
+        pos += n
+    return res
+
+
+def run_compiled(exe_ir, exe_spv, comp, inputs, ep=None, fuel=FUEL):
+    """comp: nagadrive result with ir+spv.  inputs: list of {"buffers": {...}, "builtins": {...}}.
+    Returns list of (class, detail, ir_res, spv_res) or None when the program cannot be run at all."""
+    return run_items(exe_ir, exe_spv, [(comp, inputs, ep)], fuel)[0]
 
 
 def run_pair(tools, exe_ir, exe_spv, src, inputs, ep=None, opts=None):
@@ -370,3 +420,466 @@ if __name__ == "__main__":
             print("  in:", json.dumps(i["buffers"])[:600])
             print("  ir:", json.dumps(a)[:600])
             print("  spv:", json.dumps(b)[:600])
+
+
+# --------------------------------------------------------------------------
+# probe: the instruction template naga emits per (operator, scalar kind, shape)
+
+import spvdis
+
+TY = {"i32": "i", "u32": "u", "f32": "f", "bool": "b"}
+
+BIN_ARITH = [("add", "+"), ("sub", "-"), ("mul", "*"), ("div", "/"), ("mod", "%")]
+BIN_CMP = [("eq", "=="), ("ne", "!="), ("lt", "<"), ("le", "<="), ("gt", ">"), ("ge", ">=")]
+BIN_BIT = [("and", "&"), ("or", "|"), ("xor", "^")]
+
+
+def probe_specs():
+    """[(key, operand types, result type, expression format over {0},{1},..., vectorisable)]"""
+    S = []
+    for t in ("i32", "u32", "f32"):
+        for n, op in BIN_ARITH:
+            S.append(("%s:%s" % (n, t), [t, t], t, "({0} %s {1})" % op, True))
+        for n, op in BIN_CMP:
+            S.append(("%s:%s" % (n, t), [t, t], "bool", "({0} %s {1})" % op, True))
+    for t in ("i32", "u32"):
+        for n, op in BIN_BIT:
+            S.append(("%s:%s" % (n, t), [t, t], t, "({0} %s {1})" % op, True))
+        S.append(("shl:%s" % t, [t, "u32"], t, "({0} << {1})", True))
+        S.append(("shr:%s" % t, [t, "u32"], t, "({0} >> {1})", True))
+        S.append(("not:%s" % t, [t], t, "(~{0})", True))
+    S.append(("eq:bool", ["bool", "bool"], "bool", "({0} == {1})", True))
+    S.append(("ne:bool", ["bool", "bool"], "bool", "({0} != {1})", True))
+    S.append(("and:bool", ["bool", "bool"], "bool", "({0} & {1})", True))
+    S.append(("or:bool", ["bool", "bool"], "bool", "({0} | {1})", True))
+    S.append(("lnot:bool", ["bool"], "bool", "(!{0})", True))
+    S.append(("neg:i32", ["i32"], "i32", "(-{0})", True))
+    S.append(("neg:f32", ["f32"], "f32", "(-{0})", True))
+    # conversions and bitcasts
+    for src in ("i32", "u32", "f32", "bool"):
+        for dst in ("i32", "u32", "f32", "bool"):
+            if src != dst:
+                S.append(("as_%s:%s" % (dst, src), [src], dst, "%s({0})" % dst, True))
+    for src in ("i32", "u32", "f32"):
+        for dst in ("i32", "u32", "f32"):
+            if src != dst:
+                S.append(("bitcast_%s:%s" % (dst, src), [src], dst, "bitcast<%s>({0})" % dst, True))
+    for t in ("i32", "u32", "f32", "bool"):
+        S.append(("select:%s" % t, [t, t, "bool"], t, "select({0}, {1}, {2})", True))
+    # math builtins
+    for t in ("i32", "u32", "f32"):
+        S.append(("abs:%s" % t, [t], t, "abs({0})", True))
+        S.append(("min:%s" % t, [t, t], t, "min({0}, {1})", True))
+        S.append(("max:%s" % t, [t, t], t, "max({0}, {1})", True))
+        S.append(("clamp:%s" % t, [t, t, t], t, "clamp({0}, {1}, {2})", True))
+    S.append(("sign:i32", ["i32"], "i32", "sign({0})", True))
+    S.append(("sign:f32", ["f32"], "f32", "sign({0})", True))
+    for f in ("floor", "ceil", "trunc", "round", "sqrt", "saturate", "fract", "exp", "exp2", "log", "log2", "sin", "cos", "tan",
+              "asin", "acos", "atan", "sinh", "cosh", "tanh", "asinh", "acosh", "atanh", "inverseSqrt", "radians", "degrees"):
+        S.append(("%s:f32" % f, ["f32"], "f32", "%s({0})" % f, True))
+    for f in ("pow", "atan2", "step"):
+        S.append(("%s:f32" % f, ["f32", "f32"], "f32", "%s({0}, {1})" % f, True))
+    for f in ("fma", "mix", "smoothstep"):
+        S.append(("%s:f32" % f, ["f32", "f32", "f32"], "f32", "%s({0}, {1}, {2})" % f, True))
+    for t in ("i32", "u32"):
+        for f in ("countOneBits", "countLeadingZeros", "countTrailingZeros", "reverseBits", "firstLeadingBit", "firstTrailingBit"):
+            S.append(("%s:%s" % (f, t), [t], t, "%s({0})" % f, True))
+        S.append(("extractBits:%s" % t, [t, "u32", "u32"], t, "extractBits({0}, {1}, {2})", False))
+        S.append(("insertBits:%s" % t, [t, t, "u32", "u32"], t, "insertBits({0}, {1}, {2}, {3})", False))
+    # vector -> scalar reductions (vector shapes only; the result is a scalar)
+    S.append(("all:bool", ["bool"], "bool", "all({0})", "reduce"))
+    S.append(("any:bool", ["bool"], "bool", "any({0})", "reduce"))
+    for t in ("i32", "u32", "f32"):
+        S.append(("dot:%s" % t, [t, t], t, "dot({0}, {1})", "reduce"))
+    return S
+
+
+def shaped(t, n):
+    return t if n == 1 else "vec%d<%s>" % (n, t)
+
+
+def probe_source(spec, n):
+    key, ots, rt, fmt, vec = spec
+    lines = []
+    st = lambda t: "u32" if t == "bool" else t            # bool travels as u32 != 0
+    rn = 1 if vec == "reduce" else n
+    lines.append("@group(0) @binding(0) var<storage,read_write> o: array<%s>;" % shaped(st(rt), rn))
+    args = []
+    for k, t in enumerate(ots):
+        sn = n
+        if key.startswith(("extractBits", "insertBits")) and t == "u32" and k >= (1 if key.startswith("extract") else 2):
+            sn = 1
+        lines.append("@group(0) @binding(%d) var<storage> a%d: array<%s>;" % (k + 1, k, shaped(st(t), sn)))
+        if t == "bool":
+            args.append("(a%d[0] != %s)" % (k, "0u" if sn == 1 else "vec%d<u32>(0u)" % sn))
+        else:
+            args.append("a%d[0]" % k)
+    e = fmt.format(*args)
+    if rt == "bool":
+        e = "select(%s, %s, %s)" % ("0u" if rn == 1 else "vec%d<u32>(0u)" % rn, "1u" if rn == 1 else "vec%d<u32>(1u)" % rn, e)
+    lines.append("@compute @workgroup_size(1) fn main() { o[0] = %s; }" % e)
+    return "\n".join(lines) + "\n"
+
+
+class SpvMod:
+    """Decoded module with the indexes the template abstraction needs."""
+    def __init__(self, words):
+        _h, self.ins = spvdis.decode(words)
+        self.defs = {}
+        self.types = {}
+        self.binding = {}
+        self.funcs = {}           # id -> (param ids, [instrs])
+        self.entry = None
+        cur = None
+        for op, ops in self.ins:
+            rid = spvdis.result_id(op, ops)
+            if rid is not None:
+                self.defs[rid] = (op, ops)
+            if op in (19, 20, 21, 22, 23, 24, 28, 29, 30, 32, 33):
+                self.types[ops[0]] = (op, ops[1:])
+            if op == 71 and len(ops) >= 3 and ops[1] == 33:
+                self.binding[ops[0]] = ops[2]
+            if op == 15:
+                self.entry = ops[1]
+            if op == 54:
+                cur = (ops[1], [], [])
+            elif op == 55 and cur:
+                cur[1].append(ops[1])
+            elif op == 56 and cur:
+                self.funcs[cur[0]] = (cur[1], cur[2])
+                cur = None
+            elif cur is not None:
+                cur[2].append((op, ops))
+
+    def kind(self, tid):
+        op, ops = self.types[tid]
+        if op == 20:
+            return "b"
+        if op == 21:
+            return "i" if ops[1] == 1 else "u"
+        if op == 22:
+            return "f"
+        if op in (23, 24):
+            return self.kind(ops[0])
+        raise KeyError("type %d has no component kind" % tid)
+
+    def root_var(self, pid):
+        """(variable id, [index ids]) of a pointer built by access chains"""
+        idx = []
+        while True:
+            op, ops = self.defs[pid]
+            if op in (65, 66):
+                idx = list(ops[3:]) + idx
+                pid = ops[2]
+            elif op == 59:
+                return pid, idx
+            else:
+                raise KeyError("pointer %d" % pid)
+
+
+def abstract(m, vid, params=None, depth=0):
+    """SSA value -> template (JSON codec of Spv/Catalogue.v texp_of_json)."""
+    if depth > 40:
+        return {"opaque": "depth"}
+    if params and vid in params:
+        return {"arg": params.index(vid)}
+    if vid not in m.defs:
+        return {"opaque": "undefined id"}
+    op, ops = m.defs[vid]
+    try:
+        if op == 61:                                               # OpLoad of a probe operand
+            var, _idx = m.root_var(ops[2])
+            b = m.binding.get(var)
+            if b is None or b < 1:
+                return {"opaque": "load of something that is not an operand buffer"}
+            return {"arg": b - 1}
+        if op == 43:
+            return {"c": [m.kind(ops[0]), ops[2]]}
+        if op == 41:
+            return {"cb": True}
+        if op == 42:
+            return {"cb": False}
+        if op == 46:
+            k = m.kind(ops[0])
+            return {"cb": False} if k == "b" else {"c": [k, 0]}
+        if op in (44, 80):                                         # splat: all constituents the same value
+            parts = [abstract(m, x, params, depth + 1) for x in ops[2:]]
+            if parts and all(p == parts[0] for p in parts):
+                return {"splat": [len(parts), parts[0]]}
+            return {"opaque": "composite that is not a splat"}
+        if op == 81 and len(ops) == 4:
+            return {"extract": [ops[3], abstract(m, ops[2], params, depth + 1)]}
+        if op == 57:                                               # helper call
+            callee = m.funcs.get(ops[2])
+            if callee is None:
+                return {"opaque": "call of unknown function"}
+            ps, body = callee
+            labels = [i for i in body if i[0] == 248]
+            rets = [i for i in body if i[0] == 254]
+            if len(labels) != 1 or len(rets) != 1:
+                return {"opaque": "helper with control flow"}
+            hm = abstract(m, rets[0][1][0], ps, depth + 1)
+            return {"helper": [hm, [abstract(m, x, params, depth + 1) for x in ops[3:]]]}
+        if op == 12:
+            return {"ext": [ops[3], m.kind(ops[0]), [abstract(m, x, params, depth + 1) for x in ops[4:]]]}
+        if op in spvdis.HAS_TYPE_AND_RESULT and op not in (59, 65, 66, 245, 1, 54, 55):
+            return {"op": [op, m.kind(ops[0]), [abstract(m, x, params, depth + 1) for x in ops[2:]]]}
+    except KeyError as e:
+        return {"opaque": "abstraction: %s" % e}
+    return {"opaque": "opcode %d" % op}
+
+
+def strip_bool_io(t, spec):
+    """Remove the u32<->bool plumbing of the probe program around the operator under test."""
+    key, ots, rt, _f, _v = spec
+
+    def args_fix(x):
+        if isinstance(x, dict):
+            if "op" in x:
+                opc, k, a = x["op"]
+                if opc == 171 and len(a) == 2 and "arg" in a[0] and a[0]["arg"] < len(ots) and ots[a[0]["arg"]] == "bool" \
+                        and erase_splat(a[1]) == {"c": ["u", 0]}:
+                    return a[0]
+                return {"op": [opc, k, [args_fix(y) for y in a]]}
+            if "ext" in x:
+                return {"ext": [x["ext"][0], x["ext"][1], [args_fix(y) for y in x["ext"][2]]]}
+            if "helper" in x:
+                return {"helper": [x["helper"][0], [args_fix(y) for y in x["helper"][1]]]}
+            if "extract" in x:
+                return {"extract": [x["extract"][0], args_fix(x["extract"][1])]}
+            if "splat" in x:
+                return {"splat": [x["splat"][0], args_fix(x["splat"][1])]}
+        return x
+    if rt == "bool":
+        if "op" in t and t["op"][0] == 169 and len(t["op"][2]) == 3:
+            t = t["op"][2][0]
+        else:
+            return {"opaque": "bool result not wrapped in the probe's OpSelect"}
+    return args_fix(t)
+
+
+def erase_splat(t):
+    """The scalar form of a template (what the catalogue holds)."""
+    if "splat" in t:
+        return erase_splat(t["splat"][1])
+    if "op" in t:
+        return {"op": [t["op"][0], t["op"][1], [erase_splat(x) for x in t["op"][2]]]}
+    if "ext" in t:
+        return {"ext": [t["ext"][0], t["ext"][1], [erase_splat(x) for x in t["ext"][2]]]}
+    if "helper" in t:
+        return {"helper": [erase_splat(t["helper"][0]), [erase_splat(x) for x in t["helper"][1]]]}
+    if "extract" in t:
+        return {"extract": [t["extract"][0], erase_splat(t["extract"][1])]}
+    return t
+
+
+def template_of(words, spec):
+    m = SpvMod(words)
+    if m.entry is None or m.entry not in m.funcs:
+        return {"opaque": "no entry point"}
+    _ps, body = m.funcs[m.entry]
+    stores = []
+    for op, ops in body:
+        if op == 62:
+            try:
+                var, _ = m.root_var(ops[0])
+            except KeyError:
+                continue
+            if m.binding.get(var) == 0:
+                stores.append(ops[1])
+    if len(stores) != 1:
+        return {"opaque": "expected exactly one store to the output buffer, found %d" % len(stores)}
+    return strip_bool_io(abstract(m, stores[0]), spec)
+
+
+def coq_texp(t):
+    K = {"b": "KBool", "i": "KSint", "u": "KUint", "f": "KFloat"}
+    if "arg" in t:
+        return "TArg %d" % t["arg"]
+    if "c" in t:
+        return "TConst %s %d" % (K[t["c"][0]], t["c"][1])
+    if "cb" in t:
+        return "TBoolC %s" % ("true" if t["cb"] else "false")
+    if "op" in t:
+        return "TOp %d %s [%s]" % (t["op"][0], K[t["op"][1]], "; ".join(coq_texp(x) for x in t["op"][2]))
+    if "ext" in t:
+        return "TExt %d %s [%s]" % (t["ext"][0], K[t["ext"][1]], "; ".join(coq_texp(x) for x in t["ext"][2]))
+    if "helper" in t:
+        return "THelper (%s) [%s]" % (coq_texp(t["helper"][0]), "; ".join(coq_texp(x) for x in t["helper"][1]))
+    if "extract" in t:
+        return "TExtract %d (%s)" % (t["extract"][0], coq_texp(t["extract"][1]))
+    if "splat" in t:
+        return "TSplat %d (%s)" % (t["splat"][0], coq_texp(t["splat"][1]))
+    return "TOpaque \"%s\"" % t.get("opaque", "?").replace('"', "'")
+
+
+def probe_table(tools):
+    """-> list of {"key", "shape", "tpl" (JSON template) | "error", "src"} for every (operator, kind, shape)."""
+    specs = probe_specs()
+    jobs = []
+    meta = []
+    for sp in specs:
+        for n in ((2, 3, 4) if sp[4] == "reduce" else (1, 2, 3, 4) if sp[4] else (1,)):
+            meta.append((sp, n, probe_source(sp, n)))
+    comp = compile_many(tools, [("%d" % i, src) for i, (_sp, _n, src) in enumerate(meta)])
+    out = []
+    for i, (sp, n, src) in enumerate(meta):
+        c = comp.get("%d" % i)
+        e = {"key": sp[0], "shape": n, "src": src}
+        if c is None or "spv" not in c:
+            e["error"] = (c or {}).get("err") or (c or {}).get("spv_err") or (c or {}).get("panic") or (c or {}).get("crash") or "no result"
+        else:
+            e["tpl"] = template_of(spv_words(c["spv"]), sp)
+            e["spv"] = c["spv"]
+            e["ir"] = c.get("ir")
+        out.append(e)
+    return out
+
+
+# --------------------------------------------------------------------------
+# generated programs (lib/wgslgen.py)
+
+def uninit_origin(words, msg):
+    """Which variable does an "undefined value" failure come from?  -> "private" | "spill" | "local" | "?"
+    (spill = a Function variable that naga stores a whole by-value composite into for dynamic indexing)."""
+    m = re.search(r"%(\d+)", msg)
+    if not m:
+        return "?"
+    try:
+        mod = SpvMod(words)
+        op, ops = mod.defs[int(m.group(1))]
+        if op != 61:
+            return "?"
+        var, idx = mod.root_var(ops[2])
+        vop, vops = mod.defs[var]
+        sc = vops[2]
+        if sc == 6:
+            return "private"
+        if sc == 4:
+            return "workgroup"
+        if sc == 7:
+            for _f, (_ps, body) in mod.funcs.items():
+                for o, a in body:
+                    if o == 62 and a[0] == var and idx and mod.defs.get(a[1], (0,))[0] in (80, 61, 44, 57, 82, 12, 79):
+                        return "spill"
+            return "local"
+    except (KeyError, IndexError):
+        pass
+    return "?"
+
+
+def avoid_uninit_findings(prog):
+    """Rewrite of a wgslgen program that keeps it clear of the recorded findings, so that the REST of the
+    program is still validated (any disagreement on a rewritten program is then a new violation).
+    Meaning-preserving part (private-variable initialisers are dropped / variables without initialiser are
+    not zeroed by the SPIR-V backend): every private variable is
+    assigned its initialiser (or the zero value) at the start of the entry point, and every
+    `var x: T;` gets the explicit initialiser `T()`.  The findings themselves are exercised by the
+    dedicated programs private_init / private_zero / loop_var_decl of lib/spvprogs.py."""
+    import copy
+    p = copy.deepcopy(prog)
+
+    def zero(t):
+        return {"e": "cons", "t": t, "args": []}
+
+    def fix_block(b):
+        for s in b:
+            k = s.get("s")
+            if k == "var" and s.get("e") is None:
+                s["e"] = zero(s["t"])
+            for f in ("then", "else", "body", "cont"):
+                if isinstance(s.get(f), list):
+                    fix_block(s[f])
+            if k == "switch":
+                for c in s["cases"]:
+                    fix_block(c["body"])
+            if k == "for" and isinstance(s.get("init"), dict):
+                fix_block([s["init"]])
+    def u32(n):
+        return {"e": "lit", "t": "u32", "v": n}
+
+    def fix_expr(x):
+        """operators with a recorded finding are replaced by neighbours that are emitted correctly
+        (the findings stay covered by the probe table and by lib/spvprogs.py)"""
+        if isinstance(x, list):
+            for y in x:
+                fix_expr(y)
+            return
+        if not isinstance(x, dict):
+            return
+        for v in list(x.values()):
+            fix_expr(v)
+        if x.get("e") == "builtin":
+            f, a = x["f"], x["args"]
+            if f in ("countLeadingZeros", "countTrailingZeros"):
+                x["f"] = "countOneBits"
+            elif f == "round":
+                x["f"] = "trunc"
+            elif f == "abs":
+                x["f"], x["args"] = "max", [a[0], copy.deepcopy(a[0])]
+            elif f == "clamp":
+                lo, hi = a[1], a[2]
+                x["args"] = [a[0], {"e": "builtin", "f": "min", "args": [lo, hi]},
+                             {"e": "builtin", "f": "max", "args": [copy.deepcopy(lo), copy.deepcopy(hi)]}]
+            elif f == "extractBits":
+                x["args"] = [a[0], {"e": "bin", "op": "%", "a": a[1], "b": u32(16)}, {"e": "bin", "op": "%", "a": a[2], "b": u32(17)}]
+            elif f == "insertBits":
+                x["args"] = [a[0], a[1], {"e": "bin", "op": "%", "a": a[2], "b": u32(16)}, {"e": "bin", "op": "%", "a": a[3], "b": u32(17)}]
+    fix_expr(p["funcs"])
+    fix_expr(p["entry"]["body"])
+    fix_expr(p["consts"])
+    fix_expr([g.get("e") for g in p["globals"]])
+    pre = []
+    for g in p["globals"]:
+        if g["space"] == "private":
+            pre.append({"s": "assign", "l": {"e": "var", "n": g["n"]}, "e": g.get("e") if g.get("e") is not None else zero(g["t"])})
+            g["e"] = None
+    for f in p["funcs"]:
+        fix_block(f["body"])
+    fix_block(p["entry"]["body"])
+    p["entry"]["body"] = pre + p["entry"]["body"]
+    return p
+
+
+def generated_inputs(wgslgen, prog, rng, n):
+    """n input sets for a wgslgen program: buffers keyed "group:binding" + GlobalInvocationId.
+    The invocation is always the first of its workgroup (LocalInvocationId 0: it is the one that runs
+    naga's workgroup zero-initialisation), so gid.x is a multiple of the workgroup size."""
+    out = []
+    wg = prog["entry"]["wg"]
+    for j in range(n):
+        gi = wgslgen.gen_inputs(rng.fork("i%d" % j), prog, exact=(j % 3 != 2))
+        bufs = {}
+        for g, v in zip(prog["globals"], gi["globals"]):
+            if v is not None:
+                bufs["%d:%d" % (g["group"], g["binding"])] = v
+        gid = gi["args"][0]
+        gid = {"vec": [{"u": gid["vec"][0]["u"] * wg[0]}, {"u": 0}, {"u": 0}]}
+        out.append({"buffers": bufs, "builtins": {"GlobalInvocationId": gid,
+                                                   "WorkgroupId": {"vec": [{"u": gi["args"][0]["vec"][0]["u"]}, {"u": 0}, {"u": 0}]}}})
+    return out
+
+
+# --------------------------------------------------------------------------
+# gen.py generator `spvoptable`: coq/Gen/SpvOpTable.v
+
+LAST_PROBE = None
+
+
+def gen_spvoptable(gen, tools):
+    """Probe every (operator, kind, shape), write coq/Gen/SpvOpTable.v.  A probe program that no longer
+    compiles, or whose code cannot be abstracted, yields a TOpaque row (which is in no catalogue entry)."""
+    global LAST_PROBE
+    tab = probe_table(tools)
+    LAST_PROBE = tab
+    rows = []
+    for e in tab:
+        t = e["tpl"] if "tpl" in e else {"opaque": "probe program rejected: %s" % str(e.get("error"))[:120]}
+        rows.append("  (%s, %d, %s)" % (gen.coq_string(e["key"]), e["shape"], coq_texp(t)))
+    body = "\n".join([
+        "From Coq Require Import List ZArith String.", "Import ListNotations.",
+        "Require Import Naga.Spv.Ops Naga.Spv.Catalogue.", "Open Scope Z_scope.", "Open Scope string_scope.", "",
+        "(* one row per probed (operator:type, shape): the instruction template naga emitted for",
+        "   `o[0] = a0[0] OP a1[0]` (operands abstracted, helper-function bodies inlined) *)",
+        "Definition table : list probe_row := [", ";\n".join(rows), "]."]) + "\n"
+    return [gen.write("Gen/SpvOpTable.v", body)]
